@@ -81,9 +81,9 @@ H(name="enc_format_cs3_pass", crate="kestrel-crypto", props=["C02", "C06", "C07"
 H(name="enc_faults_cs2", crate="kestrel-crypto", props=["C10"], est_s=300,
   desc="one fault (Interrupted/WouldBlock/BrokenPipe/Other, or Ok(0) write) at a solver-chosen read/write/flush call of encrypt_chunks: never a panic; read fault => IORead, write/flush fault => IOWrite; Ok only without fault or after a retried Interrupted write; what was written is a prefix of the model output; nothing written after the failure",
   funcs=ENC_FUNCS, bounds="chunk size 2, plaintext 0..3 bytes, greedy reads, fault index 0..4, one fault per run", env=[E_AEAD, E_ZERO], outside="two or more faults per run")
-H(name="enc_short_writes_cs1", crate="kestrel-crypto", props=["C10", "C01", "C02"], tier="thorough", est_s=1500, timeout=5400, mem_gb=12,
-  desc="a sink accepting a solver-chosen part (1..8 bytes) of EVERY write, std's real write_all loop: encrypt_chunks still succeeds and the byte stream equals the model",
-  funcs=ENC_FUNCS + ["std::io::Write::write_all (std)"], bounds="chunk size 1, plaintext 0..1 byte (one record of 32..33 bytes, every split into writes of 1..8 bytes)", env=[E_AEAD, E_ZERO], outside="longer files (write_all is std code)")
+H(name="enc_short_writes_cs1", crate="kestrel-crypto", props=["C10", "C01", "C02"], est_s=300, timeout=1800, mem_gb=10,
+  desc="a sink whose write accepts only a solver-chosen part (>= 1 byte) of what is offered and then the rest (every write_all split once at an arbitrary point, std's real write_all loop): encrypt_chunks still succeeds and the byte stream equals the model, no byte lost or repeated",
+  funcs=ENC_FUNCS + ["std::io::Write::write_all (std)"], bounds="chunk size 1, plaintext 0..1 byte (one record of 32..33 bytes); every split point of every write", env=[E_AEAD, E_ZERO], outside="sinks that split a write more than once; longer files (write_all is std code)")
 
 # ------------------------------------------------------------------ H-DEC (decrypt.rs)
 DEC_FUNCS = ["decrypt::decrypt_chunks", "decrypt::read_err", "decrypt::write_err"]
@@ -110,9 +110,9 @@ H(name="dec_model_cs2_n3_pass", crate="kestrel-crypto", props=["C02", "C06"], es
   desc=MOD_DESC, funcs=DEC_FUNCS, bounds="chunk size 2; 1..3 chunks; password mode", env=[E_AEAD, E_ZERO], outside="> 3 chunks")
 H(name="dec_model_cs3_n5", crate="kestrel-crypto", props=["C01", "C06"], tier="thorough", est_s=1500, timeout=5400, mem_gb=16,
   desc=MOD_DESC, funcs=DEC_FUNCS, bounds="chunk size 3; 1..5 chunks", env=[E_AEAD, E_ZERO], outside="> 5 chunks")
-H(name="dec_short_reads_cs1", crate="kestrel-crypto", props=["C10", "C01"], tier="thorough", est_s=1500, timeout=5400, mem_gb=12,
-  desc="the authentic stream delivered in solver-chosen short reads (1..8 bytes), std's real read_exact loop: same result",
-  funcs=DEC_FUNCS + ["std::io::Read::read_exact (std)"], bounds="chunk size 1, one chunk of 0..1 byte", env=[E_AEAD, E_ZERO], outside="longer files (read_exact is std code)")
+H(name="dec_short_reads_cs1", crate="kestrel-crypto", props=["C10", "C01", "C02"], est_s=300, timeout=1800, mem_gb=10,
+  desc="the authentic stream delivered in SHORT reads (every read request answered partly, then the rest: each read_exact split once at an arbitrary point; std's real read_exact loop): same result, exactly the plaintext",
+  funcs=DEC_FUNCS + ["std::io::Read::read_exact (std)"], bounds="chunk size 1, one chunk of 0..1 byte, any counter-field value; every split point of every read", env=[E_AEAD, E_ZERO], outside="sources that split a request more than once; longer files (read_exact is std code)")
 
 # ------------------------------------------------------------------ H-HDR (header level)
 HDR_ENV = ["noise_encrypt/noise_decrypt, hkdf_sha256, scrypt::scrypt, secure_random and the chunk loop replaced by recorders returning fresh unconstrained values (their own conformance: H-NOISE, C19, C18, H-ENC/H-DEC)", E_ZERO]
